@@ -141,7 +141,8 @@ proof fn lemma_tot_push(h: Seq<Value>, v: Value)
 //@sub /(?<![\w.`])overlap\b(?!`)/ => zoom_item.overlap min=10
 //@sub /zoom_item\.overlap\s*\.get_last\(\)\s*\.map\(\|o\| o\.end >= item_start\)\s*\.unwrap_or\(true\)/ => (zoom_item.overlap@.len() > 0 ==> zoom_item.overlap@.last().end >= item_start)
 //@sub /zoom_item\.overlap\s*\.get_first\(\)\s*\.map\(\|f\| f\.start < next_start\)\s*\.unwrap_or\(false\)/ => first_starts_before(&zoom_item.overlap, next_start)
-//@sub /next_val\.map\(\|v\| v\.start\)\.unwrap_or\(u32::max_value\(\)\)/ => next_val.unwrap_or(u32::MAX)
+//@sub /next_val\.map\(\|v\| v\.start\)\.unwrap_or\(/ => next_val.unwrap_or( min=1
+//@sub /\bu32::max_value\(\)/ => u32::MAX min=0
 //@sub /zoom_item\s*\.live_info\s*\.take\(\)\s*\.map\(\|\(mut zoom_item, total_items\)\| \{\s*zoom_item\.summary\.total_items = total_items;\s*zoom_item\s*\}\)\s*\.unwrap\(\),\s*\);/ => close_live(zoom_item.live_info.take()));
 //@sub /!zoom_item\.records\.is_empty\(\)/ => (zoom_item.records.len() != 0) min=0
 //@sig
